@@ -17,7 +17,11 @@ VERIF = os.path.abspath(os.path.join(HERE, ".."))
 # evidence goes to /verif/evidence; experiments on a modified /repo (tools/try_patch.sh, tools/seed_matrix.sh) redirect it
 # so that the committed evidence always describes the unchanged tree
 EVIDENCE_DIR = os.environ.get("VERIF_EVIDENCE_DIR") or os.path.join(VERIF, "evidence")
-LEAN = os.path.join(VERIF, "lean")
+# experiments (tools/mutants.py) run several checks in parallel on copies: VERIF_LEAN_DIR points at a private copy of
+# lean/ (generated files and build products are per copy), VERIF_REPLAY_DIR at a private replay directory; the code under
+# test is then chosen with PYTHONPATH.  Registered commands never set these.
+LEAN = os.environ.get("VERIF_LEAN_DIR") or os.path.join(VERIF, "lean")
+REPLAY_DIR = os.environ.get("VERIF_REPLAY_DIR") or os.path.join(VERIF, "replays")
 DRIVER = os.path.join(LEAN, ".lake", "build", "bin", "mimic-driver")
 ALLOWED_AXIOMS = {"propext", "Classical.choice", "Quot.sound"}
 FORBIDDEN = re.compile(r"\bsorry\b|\badmit\b|^\s*axiom\s|native_decide|bv_decide|implemented_by|\bunsafe\s|maxHeartbeats\s+0|\bpartial\s+def\b", re.M)
@@ -182,13 +186,13 @@ def guarded(prop_id: str, main: Callable[[], None]):
     except BaseException as e:  # noqa
         import traceback
         tb = traceback.format_exc()
-        os.makedirs(os.path.join(VERIF, "replays"), exist_ok=True)
+        os.makedirs(REPLAY_DIR, exist_ok=True)
         tier = os.environ.get("VERIF_TIER", "quick")
         for i, a in enumerate(sys.argv):
             if a == "--tier" and i + 1 < len(sys.argv):
                 tier = sys.argv[i + 1]
         seed = int(os.environ.get("VERIF_SEED", "0") or 0)
-        replay = os.path.join(VERIF, "replays", f"{prop_id}_{tier}_{seed}.json")
+        replay = os.path.join(REPLAY_DIR, f"{prop_id}_{tier}_{seed}.json")
         json.dump(dict(property=prop_id, kind="tie-broken", no_longer_checks=[dict(kind="correspondence harness crashed", error=repr(e), traceback=tb[-4000:])],
                        note="the harness could not drive the implementation; no failing input could be searched for"), open(replay, "w"), indent=1)
         ev = dict(property_id=prop_id, tier=tier if tier in ("quick", "thorough") else "quick", seed=seed, level="proof",
@@ -313,8 +317,8 @@ class Check:
         corr_ok = not self.disagreements
         viol = 0
         replay = None
-        os.makedirs(os.path.join(VERIF, "replays"), exist_ok=True)
-        stale = os.path.join(VERIF, "replays", f"{self.id}_{self.tier}_{self.seed}.json")
+        os.makedirs(REPLAY_DIR, exist_ok=True)
+        stale = os.path.join(REPLAY_DIR, f"{self.id}_{self.tier}_{self.seed}.json")
         if os.path.exists(stale):
             os.unlink(stale)
         lines = []
@@ -327,14 +331,14 @@ class Check:
             lines.append(f"KNOWN-FINDING: property={self.id} {kh['finding']['what']}")
         if self.failures:
             viol = len(self.failures)
-            replay = os.path.join(VERIF, "replays", f"{self.id}_{self.tier}_{self.seed}.json")
+            replay = os.path.join(REPLAY_DIR, f"{self.id}_{self.tier}_{self.seed}.json")
             json.dump(dict(property=self.id, kind="failing-input", failures=self.failures,
                            tie_ok=proof_ok, correspondence_ok=corr_ok,
                            disagreements=self.disagreements[:10]), open(replay, "w"), indent=1, default=repr)
             lines.append(f"VIOLATION property={self.id} replay={replay}")
         elif not proof_ok or not corr_ok:
             viol = 1
-            replay = os.path.join(VERIF, "replays", f"{self.id}_{self.tier}_{self.seed}.json")
+            replay = os.path.join(REPLAY_DIR, f"{self.id}_{self.tier}_{self.seed}.json")
             broken = []
             if not tr["build_ok"]:
                 broken.append(dict(kind="lake build failed", errors=tr.get("failed_decls"), log=tr["build_log"][-3000:]))
